@@ -6,6 +6,11 @@ VERIF = os.path.dirname(os.path.dirname(os.path.abspath(__file__)))
 ALL = ["C%02d" % i for i in range(1, 21)]
 
 CLAIMED = {
+ "C08": dict(
+   technique="TLA+ spec DnsCache.tla (keys = name/type/scope, whole-second clock, configuration chosen in the initial state, janitor phase, reload clones) model-checked with TLC; simulated histories with per-step expected observations replayed on a real DnsController in virtual time (testing/synctest) through the production insert and lookup paths",
+   text="TLC explores all histories of length 5 over 3 keys (two scopes of one name, another name/type), 2 record TTLs, fixed_domain_ttl on/off, optimistic caching on/off, stale window 0/20 s, size limit 0/2 and clock ticks that straddle deadlines, stale-window ends and janitor runs. Histories of length 16 are executed on a real controller inside a synctest bubble (Tick = time.Sleep, the real 30 s janitor fires in virtual time): answers enter through NormalizeAndCacheDnsResp_, lookups go through LookupDnsRespCache_ with differently-cased names, reloads through CloneCacheForReload/RestoreReloadCache; served-vs-miss, the served address, the question, the TTL slack, the refresh flag, the size bound and the survivors of LRU eviction are compared. This found and fixed two defects (stale window never honoured; LRU evicting just-inserted entries).",
+   note="Janitor steps whose LRU victim is not determined (equally old entries) are not generated. Trusted: TLC, testing/synctest.",
+   design="§3 C08"),
  "C19": dict(
    technique="TLA+ specs KeyEnc.tla (map-key functions) and AbiLayout.tla (C / Go layout rules evaluated by TLC over AbiDecls.tla, a constants module generated on every run from the compiled object's BTF, Go reflection in both build flavours, go/ast for the PARAM literal and the preprocessor's macro dump); keys compared with the Go constructors' bytes and with the keys the real kernel program uses; model layouts validated against both compilers",
    text="TLC enumerates boundary flows / outbound ids / addresses and emits the expected key bytes; the harness compares bpfTuplesKeyFromAddrPorts, outboundConnectivityMapKey and the domain-table key byte for byte, reads back the key the kernel stored for the same frame, and finds the connectivity slot the kernel reads by flipping slots and watching the verdict of the real tc program. For layouts TLC evaluates for every (C struct, Go counterpart, flavour) pair - 12 structs x real and stub builds plus the PARAM literal - that size, coverage and wide-field offsets agree and that 31 shared enum values / limits are equal; the layouts TLC computed are checked against BTF and reflect offsets first, so a rule error is an infrastructure failure and only a compiler-confirmed C/Go difference is a violation.",
